@@ -201,6 +201,30 @@ class Body:
         rv = ds[0][3].get('rv') or {}
         if rv.get('k') == 'use':
             return self._const_discr(rv['op'], depth + 1)
+        if rv.get('k') == 'discr':
+            # discriminant of a local that is built once as a literal variant and never borrowed mutably (async_trait's `let __ret = None;
+            # if let Some(r) = __ret { return r }`): the switch has one live edge
+            q = rv.get('pl')
+            if isinstance(q, dict) and not q.get('p'):
+                q = q.get('l')
+            if not isinstance(q, int):
+                return None
+            qd = self.defs.get(q, [])
+            if len(qd) != 1 or qd[0][0] != 'stmt':
+                return None
+            arv = qd[0][3].get('rv') or {}
+            if arv.get('k') != 'agg' or arv.get('ak') != 'adt' or arv.get('ops'):
+                return None
+            for i, j, st in self.stmts():
+                r2 = st.get('rv') or {}
+                if r2.get('k') == 'ref' and r2.get('mut') and pl_local(r2.get('pl')) == q:
+                    return None
+                d2 = st.get('d')
+                if d2 is not None and not isinstance(d2, int) and pl_local(d2) == q:
+                    return None
+            for v, n in (rv.get('variants') or []):
+                if n == arv.get('variant'):
+                    return v
         return None
 
     @property
